@@ -52,12 +52,41 @@ Proof.
   destruct (fst b); auto; discriminate.
 Qed.
 
-Lemma sort3_swap23 : forall a b c : Z, sortZ [a; c; b] = sortZ [a; b; c].
-Proof. intros. apply sortZ_perm_eq. apply perm_skip. apply perm_swap. Qed.
-Lemma sort3_rot : forall a b c : Z, sortZ [c; a; b] = sortZ [a; b; c].
+(* table level: the face-number table and the tet table list the same node
+   sets in the same order (re-checked on the regenerated tables) *)
+Lemma fistr_tet_sets : forall t, t = Tet \/ t = Tet2 ->
+  map (fun nf => sort_nat (snd nf)) tbl_fistr = map sort_nat (table t).
+Proof. intros t [-> | ->]; vm_compute; reflexivity. Qed.
+
+Lemma sort_nat_perm : forall f g, sort_nat f = sort_nat g -> Permutation f g.
 Proof.
-  intros. apply sortZ_perm_eq.
-  eapply Permutation_trans; [apply perm_swap |]. apply perm_skip. apply perm_swap.
+  intros f g H. unfold sort_nat in H.
+  eapply Permutation_trans; [apply Permutation_sym, (isort_perm Nat.leb f) |].
+  rewrite H. apply isort_perm.
+Qed.
+
+Lemma nth_firstn_lt : forall n (l : list Z) k d, k < n -> nth k (firstn n l) d = nth k l d.
+Proof.
+  induction n as [| n IH]; intros l k d H; [lia |].
+  destruct l as [| x r]; [destruct k; reflexivity |].
+  destruct k as [| k]; [reflexivity |]. simpl. apply IH. lia.
+Qed.
+
+Lemma pick_firstn : forall n c idx, (forall k, In k idx -> k < n) -> pick (firstn n c) idx = pick c idx.
+Proof.
+  intros n c idx H. unfold pick. apply map_ext_in. intros k Hk. apply nth_firstn_lt. apply H. exact Hk.
+Qed.
+
+Lemma keys_along_tables : forall c n (A : list (nat * list nat)) (B : list (list nat)),
+  map (fun nf => sort_nat (snd nf)) A = map sort_nat B ->
+  (forall idx k, In idx B -> In k idx -> k < n) ->
+  map (fun nf => sortZ (pick c (snd nf))) A = map (fun idx => sortZ (pick (firstn n c) idx)) B.
+Proof.
+  intros c n A. induction A as [| a A IH]; intros [| b B] H Hlt; simpl in H; try discriminate; [reflexivity |].
+  inversion H. simpl. f_equal.
+  - rewrite (pick_firstn n c b) by (intros k Hk; apply (Hlt b k); [left; reflexivity | exact Hk]).
+    apply sortZ_perm_eq. unfold pick. apply Permutation_map. apply sort_nat_perm. assumption.
+  - apply IH; [assumption |]. intros idx k Hi Hk. apply (Hlt idx k); [right; exact Hi | exact Hk].
 Qed.
 
 (* per element: the rows of extract_surface_fistr carry, in order, the keys of
@@ -65,16 +94,13 @@ Qed.
 Lemma fistr_rows_keys : forall t i c, (t = Tet \/ t = Tet2) -> length c = arity t ->
   map rowkey (fistr_rows_of (t, i, c)) = map key (elem_faces (t, i, c)).
 Proof.
-  intros t i c [-> | ->] Hlen; simpl in Hlen;
-    repeat (destruct c as [| ?n c]; simpl in Hlen; try discriminate);
-    cbv [fistr_rows_of tbl_fistr elem_faces faces_of length arity Nat.eqb used_cols cols_tet2 firstn
-         table tbl_tet tbl_tet2 concat app map pick nth rowkey key fst snd];
-    (apply (f_equal2 cons); [symmetry; apply sort3_swap23 |];
-     apply (f_equal2 cons); [reflexivity |];
-     apply (f_equal2 cons); [reflexivity |];
-     apply (f_equal2 cons); [| reflexivity];
-     apply sortZ_perm_eq;
-     eapply Permutation_trans; [apply perm_swap | apply perm_skip; apply perm_swap]).
+  intros t i c Ht Hlen. unfold fistr_rows_of, elem_faces, faces_of.
+  rewrite Hlen, Nat.eqb_refl. rewrite !map_map. unfold rowkey, key. cbn [fst snd].
+  apply keys_along_tables; [apply fistr_tet_sets; exact Ht |].
+  intros idx k Hi Hk. pose proof (table_closed_each t) as H. unfold table_closedb in H.
+  apply andb_true_iff in H. destruct H as [H _]. apply andb_true_iff in H. destruct H as [_ H].
+  rewrite forallb_forall in H. specialize (H idx Hi). rewrite forallb_forall in H. specialize (H k Hk).
+  apply Nat.ltb_lt in H. exact H.
 Qed.
 
 Lemma wf_arity : forall m, wf_mesh m = true -> forall t i c, In (t, i, c) (elems m) -> length c = arity t.
